@@ -98,10 +98,19 @@ func feq(a, b float64) bool {
 }
 
 // c11Check returns the first attribute of o that differs from the definition.
+// c11Check returns the first mismatch (replay), c11CheckAll every one: a
+// listed finding on one accessor must not hide another accessor.
 func c11Check(o geojson.Object) (what, exp, got string) {
+	if f := c11CheckAll(o); len(f) > 0 {
+		return f[0][0], f[0][1], f[0][2]
+	}
+	return
+}
+
+func c11CheckAll(o geojson.Object) (fails [][3]string) {
 	defer func() {
 		if r := recover(); r != nil {
-			what, exp, got = "panic", "no panic", fmt.Sprint(r)
+			fails = append(fails, [3]string{"panic", "no panic", fmt.Sprint(r)})
 		}
 	}()
 	all, occ, ok := positions(o)
@@ -110,7 +119,7 @@ func c11Check(o geojson.Object) (what, exp, got string) {
 	}
 	empty := len(occ) == 0
 	if o.Empty() != empty {
-		return "empty", fmt.Sprint(empty), fmt.Sprint(o.Empty())
+		fails = append(fails, [3]string{"empty", fmt.Sprint(empty), fmt.Sprint(o.Empty())})
 	}
 	valid := true
 	for _, p := range all {
@@ -119,7 +128,7 @@ func c11Check(o geojson.Object) (what, exp, got string) {
 		}
 	}
 	if o.Valid() != valid {
-		return "valid", fmt.Sprint(valid), fmt.Sprint(o.Valid())
+		fails = append(fails, [3]string{"valid", fmt.Sprint(valid), fmt.Sprint(o.Valid())})
 	}
 	if empty {
 		return
@@ -131,7 +140,7 @@ func c11Check(o geojson.Object) (what, exp, got string) {
 	}
 	g := o.Rect()
 	if !(feq(g.Min.X, r.Min.X) && feq(g.Min.Y, r.Min.Y) && feq(g.Max.X, r.Max.X) && feq(g.Max.Y, r.Max.Y)) {
-		return "rect", fmt.Sprint(r), fmt.Sprint(g)
+		fails = append(fails, [3]string{"rect", fmt.Sprint(r), fmt.Sprint(g)})
 	}
 	var c geometry.Point
 	switch v := o.(type) {
@@ -154,7 +163,7 @@ func c11Check(o geojson.Object) (what, exp, got string) {
 	}
 	gc := o.Center()
 	if !(feq(gc.X, c.X) && feq(gc.Y, c.Y)) {
-		return "center", fmt.Sprint(c), fmt.Sprint(gc)
+		fails = append(fails, [3]string{"center", fmt.Sprint(c), fmt.Sprint(gc)})
 	}
 	return
 }
@@ -240,8 +249,8 @@ func runC11(r *rt.Run) {
 				if !o.Empty() {
 					w.Nontriv++
 				}
-				if what, exp, got := c11Check(o); what != "" {
-					oi := oi
+				for _, f := range c11CheckAll(o) {
+					oi, what, exp, got := oi, f[0], f[1], f[2]
 					w.Fail(fmt.Sprintf("%s-%T", what, o), func() (rt.Case, string, string) {
 						return rt.Case{Kind: "attrs", Op: what, Nums: append([]float64(nil), seq...), X: map[string]string{"mode": fmt.Sprint(mode), "obj": fmt.Sprint(oi)}}, exp, got
 					})
@@ -270,8 +279,8 @@ func runC11(r *rt.Run) {
 	for _, p := range pool.objs {
 		w.States++
 		w.Evals += 4
-		if what, exp, got := c11Check(p.O); what != "" {
-			p := p
+		for _, f := range c11CheckAll(p.O) {
+			p, what, exp, got := p, f[0], f[1], f[2]
 			w.Fail(fmt.Sprintf("pool-%s-%s", what, p.Kind), func() (rt.Case, string, string) {
 				return rt.Case{Kind: "attrs", Op: what, X: map[string]string{"pool": p.Desc}}, exp, got
 			})
@@ -290,8 +299,12 @@ func evalC11(c *rt.Case) (bool, string, string, error) {
 		for size := 0; size < 2; size++ {
 			pool := buildObjPool(size)
 			if i, ok := pool.index[d]; ok {
-				what, exp, got := c11Check(pool.objs[i].O)
-				return what != "", exp, what + ": " + got, nil
+				for _, f := range c11CheckAll(pool.objs[i].O) {
+					if f[0] == c.Op {
+						return true, f[1], f[0] + ": " + f[2], nil
+					}
+				}
+				return false, "", "", nil
 			}
 		}
 		return false, "", "", fmt.Errorf("object not in pool")
@@ -315,6 +328,10 @@ func evalC11(c *rt.Case) (bool, string, string, error) {
 	if oi >= len(objs) {
 		return false, "", "", fmt.Errorf("bad object index")
 	}
-	what, exp, got := c11Check(objs[oi])
-	return what != "", exp, what + ": " + got, nil
+	for _, f := range c11CheckAll(objs[oi]) {
+		if f[0] == c.Op {
+			return true, f[1], f[0] + ": " + f[2], nil
+		}
+	}
+	return false, "", "", nil
 }
